@@ -263,8 +263,10 @@ struct Value {
     }
 
     Value &operator=(ObjectT &&obj) noexcept {
+        ObjectT n_obj{Memory::Move(obj)}; // 'obj' may be a part of this value
+
         reset();
-        object_ = Memory::Move(obj);
+        object_ = Memory::Move(n_obj);
         setTypeToObject();
 
         return *this;
@@ -281,8 +283,10 @@ struct Value {
     }
 
     Value &operator=(ArrayT &&arr) noexcept {
+        ArrayT n_arr{Memory::Move(arr)}; // 'arr' may be a part of this value
+
         reset();
-        array_ = Memory::Move(arr);
+        array_ = Memory::Move(n_arr);
         setTypeToArray();
 
         return *this;
@@ -299,8 +303,10 @@ struct Value {
     }
 
     Value &operator=(StringT &&str) noexcept {
+        StringT n_str{Memory::Move(str)}; // 'str' may be a part of this value
+
         reset();
-        string_ = Memory::Move(str);
+        string_ = Memory::Move(n_str);
         setTypeToString();
 
         return *this;
@@ -418,8 +424,12 @@ struct Value {
 
     inline void operator+=(Value &&val) {
         if (isObject() && val.isObject()) {
-            object_ += Memory::Move(val.object_);
-            val.setTypeToUndefined();
+            if (this != &val) {
+                // 'val' may be a member of this object: it is emptied before the merge can relocate or overwrite it.
+                ObjectT tmp{Memory::Move(val.object_)};
+                val.setTypeToUndefined();
+                object_ += Memory::Move(tmp);
+            }
         } else if (!isArray()) {
             // 'val' may be a part of this value and go away with the reset.
             Value tmp{Memory::Move(val)};
@@ -477,7 +487,9 @@ struct Value {
         *this += ObjectT(obj);
     }
 
-    inline void operator+=(ArrayT &&arr) {
+    inline void operator+=(ArrayT &&arr_) {
+        ArrayT arr{Memory::Move(arr_)}; // may be a part of this value
+
         if (!isArray()) {
             reset();
             setTypeToArray();
@@ -495,12 +507,14 @@ struct Value {
     }
 
     inline void operator+=(StringT &&str) {
+        Value tmp{Memory::Move(str)}; // 'str' may be a part of this value
+
         if (!isArray()) {
             reset();
             setTypeToArray();
         }
 
-        array_ += Value{Memory::Move(str)};
+        array_ += Memory::Move(tmp);
     }
 
     inline void operator+=(const StringT &str) {
@@ -568,18 +582,23 @@ struct Value {
     }
 
     inline Value &operator[](StringT &&key) {
+        StringT n_key{Memory::Move(key)}; // 'key' may be a part of this value
+
         if (!isObject()) {
             reset();
             setTypeToObject();
         }
 
-        return (object_[Memory::Move(key)]);
+        return (object_[Memory::Move(n_key)]);
     }
 
     inline Value &operator[](const StringT &key) {
         if (!isObject()) {
+            StringT n_key{key}; // 'key' may be a part of this value
+
             reset();
             setTypeToObject();
+            return (object_[Memory::Move(n_key)]);
         }
 
         return (object_[key]);
@@ -639,12 +658,14 @@ struct Value {
     }
 
     inline void Insert(const StringViewT &key, Value &&val) {
+        Value tmp{Memory::Move(val)}; // 'val' may be a part of this value
+
         if (!isObject()) {
             reset();
             setTypeToObject();
         }
 
-        object_.Insert(key.First(), key.Length(), Memory::Move(val));
+        object_.Insert(key.First(), key.Length(), Memory::Move(tmp));
     }
 
     inline bool operator<(const Value &val) const noexcept {
@@ -897,7 +918,14 @@ struct Value {
         return false; // Different kinds are never equal.
     }
 
-    void Merge(Value &&val) {
+    void Merge(Value &&val_) {
+        if (this == &val_) {
+            return;
+        }
+
+        // 'val_' may be a part of this value: it is taken out before this value grows or is overwritten.
+        Value val{Memory::Move(val_)};
+
         if (isUndefined()) {
             reset(); // A moved-from scalar keeps its old payload.
             setTypeToArray();
@@ -917,8 +945,6 @@ struct Value {
         } else if (isObject() && val.isObject()) {
             object_ += Memory::Move(val.object_);
         }
-
-        val.Reset();
     }
 
     void Merge(const Value &val) {
